@@ -1014,3 +1014,97 @@ Proof.
   - apply wfb_wf. vm_compute. reflexivity.
   - vm_compute. discriminate.
 Qed.
+
+(* ================================================================== *)
+(* packaging for Properties/C05.v                                      *)
+(* ================================================================== *)
+
+Lemma is_pow2_of_exists w n : 0 < w -> (0 < n)%nat -> (exists k, bits w n = 2 ^ k) -> is_pow2 (bits w n).
+Proof.
+  intros Hw Hn (k & E). exists k. split; [|exact E].
+  destruct (Z.lt_ge_cases k 0) as [Hk|Hk]; [|exact Hk].
+  rewrite Z.pow_neg_r in E by exact Hk. unfold bits in E. nia.
+Qed.
+
+(* the literal form of item 2: padding with ones on a negative operand *)
+Theorem shr_pad_true_negative w n x s : 0 < w -> wf w n x -> 0 <= s < bits w n ->
+  is_negative w x = true ->
+  wf w n (shr_pad_internal w true x s) /\
+  sval w (shr_pad_internal w true x s) = sval w x / 2 ^ s.
+Proof.
+  intros Hw Hwf Hs Hneg. pose proof (sar_internal_ok w n x s Hw Hwf Hs) as H.
+  rewrite Hneg in H. exact H.
+Qed.
+
+(* left shift read as a signed number: wraps in two's complement *)
+Theorem shl_post_signed w n x s r : 0 < w -> (0 < n)%nat -> wf w n x -> 0 <= s ->
+  shl_post w n x s r -> sval w r = wrapS (Mod w n) (sval w x * 2 ^ s).
+Proof.
+  intros Hw Hn Hwf Hs (Hwfr & Hv).
+  destruct (Mod_ge_2 w n Hw Hn) as (HM2 & HMe).
+  unfold sval at 1. rewrite (wf_length _ _ _ Hwfr), Hv.
+  rewrite to_signed_of_mod by (auto; lia).
+  rewrite (sval_cases w n x) by auto.
+  destruct (is_negative w x); [|reflexivity].
+  unfold wrapS. f_equal.
+  replace ((uval w x - Mod w n) * 2 ^ s + Mod w n / 2)
+    with (uval w x * 2 ^ s + Mod w n / 2 + (- 2 ^ s) * Mod w n) by ring.
+  rewrite Z.mod_add by lia. reflexivity.
+Qed.
+
+Theorem U_wrapping_shl_ok w n x s : 0 < w -> (0 < n)%nat -> wf w n x -> 0 <= s ->
+  (s < bits w n -> shl_post w n x s (U_wrapping_shl w x s)) /\
+  ((exists k, bits w n = 2 ^ k) ->
+     U_wrapping_shl w x s = shl_internal w x (s mod bits w n) /\
+     shl_post w n x (s mod bits w n) (U_wrapping_shl w x s)).
+Proof.
+  intros Hw Hn Hwf Hs. destruct (U_overflowing_shl_ok w n x s Hw Hn Hwf Hs) as (_ & H1 & H2).
+  split; [exact H1|]. intros Hp. apply H2, is_pow2_of_exists; auto.
+Qed.
+
+Theorem U_wrapping_shr_ok w n x s : 0 < w -> (0 < n)%nat -> wf w n x -> 0 <= s ->
+  (s < bits w n -> shr_post w n x s (U_wrapping_shr w x s)) /\
+  ((exists k, bits w n = 2 ^ k) ->
+     U_wrapping_shr w x s = shr_pad_internal w false x (s mod bits w n) /\
+     shr_post w n x (s mod bits w n) (U_wrapping_shr w x s)).
+Proof.
+  intros Hw Hn Hwf Hs. destruct (U_overflowing_shr_ok w n x s Hw Hn Hwf Hs) as (_ & H1 & H2).
+  split; [exact H1|]. intros Hp. apply H2, is_pow2_of_exists; auto.
+Qed.
+
+Theorem I_wrapping_shl_ok w n x s : 0 < w -> (0 < n)%nat -> wf w n x -> 0 <= s ->
+  (s < bits w n -> shl_post w n x s (I_wrapping_shl w x s)) /\
+  ((exists k, bits w n = 2 ^ k) ->
+     I_wrapping_shl w x s = shl_internal w x (s mod bits w n) /\
+     shl_post w n x (s mod bits w n) (I_wrapping_shl w x s)).
+Proof. exact (U_wrapping_shl_ok w n x s). Qed.
+
+Theorem I_wrapping_shr_ok w n x s : 0 < w -> (0 < n)%nat -> wf w n x -> 0 <= s ->
+  (s < bits w n -> sar_post w n x s (I_wrapping_shr w x s)) /\
+  ((exists k, bits w n = 2 ^ k) ->
+     I_wrapping_shr w x s = shr_pad_internal w (is_negative w x) x (s mod bits w n) /\
+     sar_post w n x (s mod bits w n) (I_wrapping_shr w x s)).
+Proof.
+  intros Hw Hn Hwf Hs. destruct (I_overflowing_shr_ok w n x s Hw Hn Hwf Hs) as (_ & H1 & H2).
+  split; [exact H1|]. intros Hp. apply H2, is_pow2_of_exists; auto.
+Qed.
+
+Theorem overflowing_pow2 w n x s : 0 < w -> (0 < n)%nat -> wf w n x -> 0 <= s ->
+  (exists k, bits w n = 2 ^ k) ->
+  U_overflowing_shl w x s = (shl_internal w x (s mod bits w n), bits w n <=? s) /\
+  U_overflowing_shr w x s = (shr_pad_internal w false x (s mod bits w n), bits w n <=? s) /\
+  I_overflowing_shl w x s = (shl_internal w x (s mod bits w n), bits w n <=? s) /\
+  I_overflowing_shr w x s = (shr_pad_internal w (is_negative w x) x (s mod bits w n), bits w n <=? s).
+Proof.
+  intros Hw Hn Hwf Hs Hp. apply (is_pow2_of_exists w n Hw Hn) in Hp.
+  destruct (U_overflowing_shl_ok w n x s Hw Hn Hwf Hs) as (A1 & _ & A2).
+  destruct (U_overflowing_shr_ok w n x s Hw Hn Hwf Hs) as (B1 & _ & B2).
+  destruct (I_overflowing_shr_ok w n x s Hw Hn Hwf Hs) as (C1 & _ & C2).
+  destruct (A2 Hp) as (A3 & _). destruct (B2 Hp) as (B3 & _). destruct (C2 Hp) as (C3 & _).
+  unfold I_overflowing_shl.
+  repeat split; apply injective_projections; cbn [fst snd]; assumption.
+Qed.
+
+Theorem mask_amount_ok w n s : 0 < w -> (0 < n)%nat -> (exists k, bits w n = 2 ^ k) ->
+  0 <= s < 2 ^ 32 -> mask_amount w n s = s mod bits w n.
+Proof. intros Hw Hn Hp _. apply mask_amount_pow2, is_pow2_of_exists; auto. Qed.
